@@ -72,7 +72,7 @@ pub fn c09_def() -> PropDef {
         },
         candidates: sim_candidates,
         runs_quick: 160_000,
-        runs_thorough: 8_000_000,
+        runs_thorough: 4_000_000,
         level: "fault_enumeration",
         rule: "rulesets of 0..6 seeded rules (succeeding, failing with each error class at the root or deep inside, calling cacheable and non-cacheable probes shared between rules) x inputs of every accepted shape (Value maps / non-maps / none, serde_json, derived struct and enum, string-keyed map, unit, maps with non-string keys); every base scenario is executed under all 2^4 patterns of 'which of its first four call sites fail' (16 consecutive run indices), plus a hash predicate for dynamic-argument calls; non-trivial = at least two rules or a typed input; distinct = distinct (rule count, input shape, failing-position bitmask, error class per rule) hashes, counted as set bits of a 2^25-bit bitmap",
         assumptions: &[
